@@ -353,9 +353,15 @@ func doCheck(p *propCfg, tier string) int {
 			select {
 			case werr = <-done:
 			case <-time.After(hard):
-				cmd.Process.Kill()
-				werr = fmt.Errorf("worker exceeded hard limit %v", hard)
-				<-done
+				// the worker stops by itself at its deadline; if this timer fired because the machine
+				// was paused, the worker notices the same jump of the clock and ends at its next check
+				select {
+				case werr = <-done:
+				case <-time.After(90 * time.Second):
+					cmd.Process.Kill()
+					werr = fmt.Errorf("worker exceeded hard limit %v", hard)
+					<-done
+				}
 			}
 			logf.Close()
 			bs, rerr := os.ReadFile(out)
